@@ -60,8 +60,8 @@ CLIENT_DEPS = ["Client.tla", "MCClient.tla", "Observer.tla"]
 def l1_client(pid, tier, seed):
     """exhaustive TLC runs of the send-engine model; plus the two 'defect switch' configurations, which MUST fail
     (they show that the invariants are not vacuous and that the model is the design the fixes were made against)"""
-    cfgs = ["MCClient.lean3.cfg", "MCClient.obs2q.cfg"]
-    if tier == "thorough": cfgs += ["MCClient.lean4.cfg", "MCClient.obs2.cfg"]
+    cfgs = ["MCClient.lean3.cfg", "MCClient.obs2q.cfg", "MCClient.obs2q.K_su.cfg"]
+    if tier == "thorough": cfgs += ["MCClient.lean4.cfg", "MCClient.obs2.cfg", "MCClient.obs2.K_u2.cfg"]
     out = dict(name="L1 Client.tla", states=0, transitions=0, violations=0, runs=[], samples=[])
     for cfg in cfgs:
         r = run_model("MCClient.tla", cfg, CLIENT_DEPS)
